@@ -1613,7 +1613,7 @@ fn main() {
 
     let max_steps = if run.is_thorough() { 8 } else { 6 };
 
-    let n = run.scale(36_000, 700_000);
+    let n = run.scale(30_000, 500_000);
     run.section(
         "pipelines",
         "PROJ pipeline ASTs (typed chains 70% / arbitrary 30%) over 18 shared operator names, header/globals/ellps/a+rf/k clashes, pipeline and step inv, omit_*, push/pop brackets, rendered in random layout; compared with the independent translation (bitwise, both directions, step count), with the inverted twin, idempotence of parse_proj; classes listed as known are excluded by construction (counters excluded_known:*); non-trivial = >= 2 steps and one of {global/local clash, inv, omit_*} and a finite effect on a probe",
